@@ -68,6 +68,14 @@ def gen(tier, rng, harness=None, driver=None):
             for l, r in ((a, b), (b, a)):
                 lines.append("ty.equal %s %s" % (l, r))
                 lines.append("!ty.inj %s %s" % (l, r))
+                lines.append("ty.staged %s %s" % (l, r))
+    # types built in STAGES the way a front end builds them (a struct shell pointed to before it has fields or a name, a function type before its variadic flag,
+    # a pointer before its address space), printed and compared BETWEEN the stages: equality and text depend on the final structure only
+    for x in ("n61", "p0(n61)", "s(i32,p0(n61))", "p0(s(i8,i16))", "p0(G(i32;p0(i8)))", "p0(F(i32;p0(i8)))", "p3(i8)", "s(p0(s()),p0(P()))", "a4(p0(n62))", "F(p0(n61);p0(n62))",
+              "S4(i32)", "V4(p1(i8))", "P(p0(P(i8)))", "p0(p0(p0(s(i1))))"):
+        for y in ("n61", "p0(n61)", "p0(s())", "p0(s(i32,p0(n61)))", "p0(F(i32;p0(i8)))", "p0(G(i32;p0(i8)))", "p0(s(i8,i16))", "p0(i8)", x):
+            lines.append("ty.staged %s %s" % (x, y))
+            lines.append("ty.staged %s %s" % (y, x))
     n = 800 if tier == "quick" else 40000
     for _ in range(n):
         a = tygen.gen_ty(rng, rng.randint(0, 4))
@@ -86,6 +94,8 @@ def gen(tier, rng, harness=None, driver=None):
         lines.append("ty.equal %s %s" % (b, a))
         lines.append("!ty.laws %s %s %s" % (a, b, c))
         lines.append("!ty.inj %s %s" % (a, b))
+        lines.append("ty.staged %s %s" % (a, b))
+        lines.append("ty.staged %s %s" % (b, a))
         fc = tygen.gen_ty(rng, rng.randint(0, 3), True)
         lines.append("!ty.rt %s" % fc)
     return lines
@@ -109,6 +119,9 @@ def search(ln, a, b, harness, driver):
     p = ln.split()
     if p[0] == "ty.parse":
         return None
+    if p[0] == "ty.staged":
+        # Equal / String of a type built in stages differs from what its final structure determines: the operation (a construction history) is the failing input
+        return {"ops": [ln], "impl": [a], "model": [b]}
     args = p[1:]
     cands = []
     for x in args:
